@@ -103,3 +103,56 @@ Theorem C06_default_check_combinations_every_claim :
     default_batch_check Comm Proof St check cs pqs (map (fun kv => (fst (fst kv), snd (fst kv), snd kv)) pev) proofs st = Ok (true, st').
 Proof. exact @default_check_combinations_true. Qed.
 Print Assumptions C06_default_check_combinations_every_claim.
+
+(* Sonic's own open_combinations / check_combinations: the homomorphic combination of honest commitments (each consistent with
+   the shift element of its bound) to polynomials without degree bounds is an honest commitment triple of exactly the stated
+   combination; a single degree-bounded polynomial with coefficient one keeps its bound and stays honest for it; a bounded
+   polynomial in a mix is refused by prover and verifier; constant terms move into the claims of that combination only; the
+   verifier's combined commitment is the coefficient-weighted sum of the commitments it looked up *)
+From PC Require Import Schemes.Sonic Schemes.SonicLC Proofs.SonicLCFacts.
+Theorem C06_sonic_combination_is_honest_commitment :
+  forall (FO : FieldOps) (FL : FieldLaws FO) vk h g gam beta m lm (l : lcomb) lp st c,
+    s_lm_honest vk h g gam beta m lm ->
+    (forall co lab lp' st' c', In (co, TPoly lab) (snd l) -> lookup N.compare lab lm = Some (lp', st', c') -> lp_bound lp' = None) ->
+    slc_prover_one lm l = Ok (lp, st, c) ->
+    s_honest vk h g gam beta m (lp, st, fst c) /\ lp_label lp = fst l /\ snd c = lp_bound lp /\ lp_bound lp = None /\
+    forall x, eval (lp_poly lp) x + lc_const (snd l) = lc_value (s_poly_of lm x) (snd l).
+Proof. exact @slc_prover_one_unbounded. Qed.
+Print Assumptions C06_sonic_combination_is_honest_commitment.
+
+Theorem C06_sonic_single_bounded_term_keeps_bound :
+  forall (FO : FieldOps) (FL : FieldLaws FO) vk h g gam beta m lm lab l lp0 st0 c0 d lp st c,
+    s_lm_honest vk h g gam beta m lm -> lookup N.compare l lm = Some (lp0, st0, c0) -> lp_bound lp0 = Some d ->
+    slc_prover_one lm (lab, [(1, TPoly l)]) = Ok (lp, st, c) ->
+    s_honest vk h g gam beta m (lp, st, fst c) /\ lp_bound lp = Some d /\ snd c = Some d /\
+    forall x, eval (lp_poly lp) x = eval (lp_poly lp0) x.
+Proof. exact @slc_prover_one_bounded_single. Qed.
+Print Assumptions C06_sonic_single_bounded_term_keeps_bound.
+
+Theorem C06_sonic_prover_refuses_bounded_mix :
+  forall (FO : FieldOps) lm num coeff l t a lp st c d,
+    lookup N.compare l lm = Some (lp, st, c) -> lp_bound lp = Some d -> num <> 1%nat ->
+    slc_prover_loop lm num ((coeff, TPoly l) :: t) a = Err EEquationHasDegreeBounds.
+Proof. exact @s_prover_refuses_bounded_mix. Qed.
+Print Assumptions C06_sonic_prover_refuses_bounded_mix.
+
+Theorem C06_sonic_verifier_refuses_bounded_mix :
+  forall (FO : FieldOps) cm lab num coeff l t ev b cc c d,
+    lookup N.compare l cm = Some (c, Some d) -> num <> 1%nat ->
+    slc_verifier_loop cm lab num ((coeff, TPoly l) :: t) ev b cc = Err EEquationHasDegreeBounds.
+Proof. exact @s_verifier_refuses_bounded_mix. Qed.
+Print Assumptions C06_sonic_verifier_refuses_bounded_mix.
+
+Theorem C06_sonic_constant_term_moves_to_claim :
+  forall (FO : FieldOps) cm lab num coeff t ev b cc,
+    slc_verifier_loop cm lab num ((coeff, TOne) :: t) ev b cc =
+    slc_verifier_loop cm lab num t
+      (map (fun kv => if N.eqb (fst (fst kv)) lab then (fst kv, snd kv - coeff) else kv) ev) b cc.
+Proof. exact @s_constant_term_moves_to_claim. Qed.
+Print Assumptions C06_sonic_constant_term_moves_to_claim.
+
+Theorem C06_sonic_verifier_combined_commitment :
+  forall (FO : FieldOps) (FL : FieldLaws FO) cm lab num terms ev b cc ev' b' cc',
+    slc_verifier_loop cm lab num terms ev b cc = Ok (ev', b', cc') -> cc' = cc + s_comm_value cm terms.
+Proof. exact @s_verifier_loop_comm. Qed.
+Print Assumptions C06_sonic_verifier_combined_commitment.
